@@ -14,7 +14,10 @@ import (
 func (r *runner) exec(op Op) Out {
 	var o Out
 	inv := r.clk.Add(1)
+	id := sink.op(op, inv) // (child) the parent knows what is in flight if the process dies now
 	switch op.T {
+	case "idle":
+		o = Out{C: "unit"}
 	case "restart":
 		r.closeStore()
 		r.open()
@@ -31,6 +34,7 @@ func (r *runner) exec(op Op) Out {
 		}
 	}
 	o.Inv, o.Resp = inv, r.clk.Add(1)
+	sink.out(id, o)
 	return o
 }
 
@@ -98,6 +102,8 @@ func coqOp(op Op) string {
 		return "IForeign " + coqKV(op.KV)
 	case "count":
 		return "ICount"
+	case "idle":
+		return "IIdle"
 	}
 	return "ICount"
 }
@@ -122,6 +128,8 @@ func coqOut(o Out) string {
 		return "OUnit"
 	case "num":
 		return fmt.Sprintf("ONum %d", o.N)
+	case "crashed":
+		return "OCrashed"
 	}
 	return "OOther"
 }
